@@ -37,6 +37,7 @@ import gtirb_rewriting._auxdata_offsetmap as _auxdata_offsetmap
 from .._auxdata_offsetmap import OFFSETMAP_AUX_DATA_TABLES
 from ..assembler import Assembler, UnsupportedAssemblyError
 from ..utils import (
+    _block_fallthrough_targets,
     _get_function_blocks,
     _is_call_edge,
     _is_fallthrough_edge,
@@ -128,6 +129,14 @@ def _update_patch_return_edges_to_match(
             for edge in cache.return_cache.block_return_edges(func_block)
             if not isinstance(edge.target, gtirb.ProxyBlock)
         )
+        # The function may not have had a return before (so there are no
+        # return edges to copy), but its callers still tell us where a
+        # return goes.
+        for edge in func_block.incoming_edges:
+            if _is_call_edge(edge) and isinstance(
+                edge.source, gtirb.CodeBlock
+            ):
+                return_targets.update(_block_fallthrough_targets(edge.source))
 
     if not return_targets:
         return
